@@ -221,6 +221,8 @@ def families(check_fn, configs=None, thorough=False):
   sp = wc.fam_split_items()
   fams.append(("F-text-split", len(sp) * 2, lambda i: wc.split_doc(sp[i // 2], ["default", "preserve"][i % 2]), [c for c in cfgs if c[0] == "vtt"],
                "markup-significant strings cut into 2-3 adjacent spans at every position (WebVTT)"))
+  fams.append(("F-blank", len(wc.STYLE_MENU) * 2, lambda i: wc.blank_doc(i // 2, i % 2), cfgs,
+               "a paragraph whose only text is preserved white space in a styled span: no cue, whatever tags the style would need"))
   tm = wc.fam_time_items()
   fams.append(("F-time", len(tm), lambda i: wc.time_doc(*tm[i]), [c for c in cfgs if c in (("srt", True), ("vtt", False, False, True), ("vtt", True, False, True))],
                "millisecond / sub-millisecond / unbounded intervals"))
